@@ -134,9 +134,20 @@ impl StoreStack {
 thread_local! {
     static PANICS: RefCell<Vec<String>> = const { RefCell::new(Vec::new()) };
     static QUIET: RefCell<bool> = const { RefCell::new(false) };
+    /// set on every thread the harness itself starts (and on the main thread); a thread without
+    /// it was started by the code under test (runtime_builder's listener and worker threads)
+    static HARNESS_THREAD: RefCell<bool> = const { RefCell::new(false) };
+}
+
+/// Panics on threads the code under test started itself (start-up probes of C20).
+static FOREIGN_PANICS: std::sync::Mutex<Vec<String>> = std::sync::Mutex::new(Vec::new());
+
+pub fn take_foreign_panics() -> Vec<String> {
+    std::mem::take(&mut *FOREIGN_PANICS.lock().unwrap_or_else(|e| e.into_inner()))
 }
 
 pub fn install_panic_hook() {
+    HARNESS_THREAD.with(|h| *h.borrow_mut() = true);
     let verbose = std::env::var("VERIF_DEBUG").is_ok();
     let default = std::panic::take_hook();
     std::panic::set_hook(Box::new(move |info| {
@@ -160,6 +171,12 @@ pub fn install_panic_hook() {
             if verbose {
                 eprintln!("[captured panic] {} at {}", msg, loc);
             }
+        } else if !HARNESS_THREAD.with(|h| *h.borrow()) {
+            // a thread the server created for itself: the panic belongs to the code under test
+            FOREIGN_PANICS.lock().unwrap_or_else(|e| e.into_inner()).push(format!("{} at {}", msg, loc));
+            if verbose {
+                eprintln!("[captured panic on a server thread] {} at {}", msg, loc);
+            }
         } else {
             // a panic outside the code under test is a bug of the harness itself:
             // never report it as a violation
@@ -181,5 +198,6 @@ pub fn take_panics() -> Vec<String> {
 
 /// Per worker-thread initialisation.
 pub fn install_thread() {
+    HARNESS_THREAD.with(|h| *h.borrow_mut() = true);
     capture_panics(false);
 }
